@@ -78,6 +78,9 @@ impl<F: Float, D: Distance<F>> NearestNeighbourIndex<F> for KdTreeIndex<'_, F, D
                 &|a, b| self.1.rdistance(aview1(a), aview1(b)),
             )?
             .into_iter()
+            // `kdtree::within` includes points lying exactly on the radius, unlike the other
+            // indices, which only return points strictly inside of it
+            .filter(|(dist, _)| *dist < range)
             .map(|(_, (pt, pos))| (pt.reborrow(), *pos))
             .collect())
     }
